@@ -45,8 +45,8 @@ fn info(tier: Tier) -> CheckInfo {
     }
 }
 
-const N_APIS: usize = 13;
-const API_NAMES: [&str; N_APIS] = ["find_node(x)", "get_closest_nodes(x)", "get_immutable(x)", "get_peers(x)", "put_immutable->x", "announce_peer(x)", "put_mutable->m", "find_node(m)", "put_immutable->y", "bootstrapped()", "get_mutable(m)", "announce_signed_peer(s)", "get_signed_peers(s)"];
+pub(crate) const N_APIS: usize = 13;
+pub(crate) const API_NAMES: [&str; N_APIS] = ["find_node(x)", "get_closest_nodes(x)", "get_immutable(x)", "get_peers(x)", "put_immutable->x", "announce_peer(x)", "put_mutable->m", "find_node(m)", "put_immutable->y", "bootstrapped()", "get_mutable(m)", "announce_signed_peer(s)", "get_signed_peers(s)"];
 
 const VX: &[u8] = b"value whose hash is x";
 const VY: &[u8] = b"value whose hash is y";
@@ -198,27 +198,29 @@ fn open_iterator(which: usize, out: &mut Partial) {
 }
 
 #[derive(Clone, Debug)]
-struct Script {
-    first: usize,
-    second: Option<usize>,
+pub(crate) struct Script {
+    pub first: usize,
+    pub second: Option<usize>,
     /// placement of the second call: Some(n) = before the n-th network event of the first
     /// call's lifetime; None + after = this long after the first call completed
-    at_event: Option<u32>,
-    after: u64,
-    real_peers: bool,
+    pub at_event: Option<u32>,
+    pub after: u64,
+    pub real_peers: bool,
 }
 
-struct Out {
-    problems: Vec<(String, String)>,
-    events_first: u32,
-    steps: u64,
-    digests: Vec<u64>,
-    max_completion_ms: u64,
-    results: Vec<String>,
+pub(crate) struct Out {
+    pub problems: Vec<(String, String)>,
+    pub events_first: u32,
+    pub steps: u64,
+    pub digests: Vec<u64>,
+    pub max_completion_ms: u64,
+    pub results: Vec<String>,
+    /// per-call state still held after everything completed and a quiet period (C20)
+    pub leaks: Vec<(String, String)>,
 }
 
 /// faults: 0 none, 1 datagram fates + silence choice points enabled
-fn scenario(chooser: Chooser, sc: &Script, faults: bool, track: bool) -> (Chooser, Out) {
+pub(crate) fn scenario(chooser: Chooser, sc: &Script, faults: bool, track: bool) -> (Chooser, Out) {
     let mut w = World::new(chooser);
     w.track_states = track;
     let ids = crate::epnet::ranked_ids(&x(), 3);
@@ -380,7 +382,34 @@ fn scenario(chooser: Chooser, sc: &Script, faults: bool, track: bool) -> (Choose
     if w.nodes[a].exited == Some(true) || !w.nodes[a].alive {
         problems.push(("actor-died".into(), "the node's actor thread is gone".into()));
     }
-    let out = Out { problems, events_first: events, steps: w.steps, digests: w.state_digests.iter().copied().collect(), max_completion_ms: max_completion, results };
+    // ---- quiescence (C20): once every call completed, after a quiet period longer than any
+    // request timeout the node must hold no per-call state
+    let mut leaks: Vec<(String, String)> = vec![];
+    if problems.is_empty() && w.nodes[a].alive {
+        let quiet = w.snapshot(a).socket.request_timeout.as_nanos() as u64 + 2 * SEC;
+        let h = w.now + quiet;
+        w.run_until(h, |w, ev| {
+            pump(w, &mut net, ev, &silent_from);
+            false
+        });
+        let s = w.snapshot(a);
+        if !s.core.iterative_queries.is_empty() {
+            leaks.push(("pending-lookups".into(), format!("{} lookups still registered", s.core.iterative_queries.len())));
+        }
+        if !s.core.put_queries.is_empty() {
+            leaks.push(("pending-puts".into(), format!("{} put queries still registered", s.core.put_queries.len())));
+        }
+        if !s.put_senders.is_empty() || !s.get_senders.is_empty() {
+            leaks.push(("parked-callers".into(), format!("{} put and {} get caller lists still parked", s.put_senders.len(), s.get_senders.len())));
+        }
+        if s.socket.inflight_unexpired != 0 {
+            leaks.push(("unexpired-inflight-requests".into(), format!("{} in-flight requests have not expired", s.socket.inflight_unexpired)));
+        }
+        if s.socket.inflight.len() > 4 * (s.socket.next_tid as usize).min(64) + 64 {
+            leaks.push(("inflight-table-growth".into(), format!("the in-flight table holds {} entries", s.socket.inflight.len())));
+        }
+    }
+    let out = Out { problems, events_first: events, steps: w.steps, digests: w.state_digests.iter().copied().collect(), max_completion_ms: max_completion, results, leaks };
     let ch = std::mem::take(&mut w.chooser);
     (ch, out)
 }
